@@ -334,16 +334,241 @@ theorem sound : ∀ t : CqlTy, Sound t
     | map kvs => rw [hv] at h; cases h
     | tuple fs => rw [hv] at h; cases h
     | udt ks name m => rw [hv] at h; cases h
-  | .map kt vt => by sorry
-  | .vector elt dim => by sorry
-  | .tuple ts => by sorry
-  | .udt ks name fields => by sorry
+  | .map kt vt => by
+    intro hty v body h hlt
+    rw [encSpec] at h
+    cases hv : viewOf v with
+    | null => rw [hv] at h; simp at h
+    | unset => rw [hv] at h; simp at h
+    | empty =>
+      have : v = .empty := by cases v <;> simp [viewOf] at hv; rfl
+      subst this
+      rw [hv] at h
+      simp only [frameChecked] at h
+      split at h
+      · split at h
+        · cases h
+        · simp at h; subst h; exact specBody_empty _
+      · cases h
+    | scalar acc b viaB => rw [hv] at h; simp [encScalarSpec] at h
+    | map kvs =>
+      rw [hv] at h
+      simp only at h
+      simp only [wfTy, Bool.and_eq_true] at hty
+      split at h
+      · cases h
+      · cases hc : concatEnc (pairSpec (fun k => encSpec kt k true) (fun v => encSpec vt v true)) kvs with
+        | error e => rw [hc] at h; cases h
+        | ok cells =>
+          rw [hc] at h
+          have := frame_false _ _ h
+          subst this
+          rw [specBody_map kt vt v kvs hv,
+            concat_cat _ (pairCell (fun k => specCell kt k) (fun x => specCell vt x)) kvs cells
+              (fun kv _ c hx => by
+                obtain ⟨kc, vc, hk, hvv, rfl⟩ := pairSpec_ok _ _ kv c hx
+                simp only [pairCell, cell_of_body kt (sound kt hty.1) kv.1 kc hk,
+                  cell_of_body vt (sound vt hty.2) kv.2 vc hvv]) hc]
+          rfl
+    | seq vs => rw [hv] at h; cases h
+    | tuple fs => rw [hv] at h; cases h
+    | udt ks name m => rw [hv] at h; cases h
+  | .vector elt dim => by
+    intro hty v body h hlt
+    rw [encSpec] at h
+    cases hv : viewOf v with
+    | null => rw [hv] at h; simp at h
+    | unset => rw [hv] at h; simp at h
+    | empty =>
+      have : v = .empty := by cases v <;> simp [viewOf] at hv; rfl
+      subst this
+      rw [hv] at h
+      simp only [frameChecked] at h
+      split at h
+      · split at h
+        · cases h
+        · simp at h; subst h; exact specBody_empty _
+      · cases h
+    | scalar acc b viaB => rw [hv] at h; simp [encScalarSpec] at h
+    | seq vs =>
+      rw [hv] at h
+      simp only at h
+      have hty' : wfTy elt = true := by simpa [wfTy] using hty
+      split at h
+      · cases h
+      · rename_i hlen
+        have hlen' : vs.length = dim := by simpa using hlen
+        rw [specBody_vector elt dim v vs hv, if_pos hlen', fixedWidth_eq]
+        cases hs : elt.sizeForVector with
+        | some sz =>
+          rw [hs] at h
+          simp only at h
+          cases hc : concatEnc (fun v => encSpec elt v false) vs with
+          | error e => rw [hc] at h; cases h
+          | ok cells =>
+            rw [hc] at h
+            have := frame_false _ _ h
+            subst this
+            simp only [vectorBody, Option.isSome_some, if_true]
+            exact concat_cat_len _ (fun x => specBody elt x) (2 ^ 64) vs body
+              (fun x _ c hx hl => sound elt hty' x c hx hl) hc hlt
+        | none =>
+          rw [hs] at h
+          simp only at h
+          cases hc : concatEnc (varElemSpec (fun v => encSpec elt v false)) vs with
+          | error e => rw [hc] at h; cases h
+          | ok cells =>
+            rw [hc] at h
+            have := frame_false _ _ h
+            subst this
+            simp only [vectorBody, Option.isSome_none, Bool.false_eq_true, if_false]
+            exact concat_cat_len _ _ (2 ^ 64) vs body
+              (fun x _ c hx hl => varElem_cat elt (sound elt hty') x c hx hl) hc hlt
+    | map kvs => rw [hv] at h; cases h
+    | tuple fs => rw [hv] at h; cases h
+    | udt ks name m => rw [hv] at h; cases h
+  | .tuple ts => by
+    intro hty v body h hlt
+    rw [encSpec] at h
+    cases hv : viewOf v with
+    | null => rw [hv] at h; simp at h
+    | unset => rw [hv] at h; simp at h
+    | empty =>
+      have : v = .empty := by cases v <;> simp [viewOf] at hv; rfl
+      subst this
+      rw [hv] at h
+      simp only [frameChecked] at h
+      split at h
+      · split at h
+        · cases h
+        · simp at h; subst h; exact specBody_empty _
+      · cases h
+    | scalar acc b viaB => rw [hv] at h; simp [encScalarSpec] at h
+    | tuple fs =>
+      rw [hv] at h
+      simp only at h
+      split at h
+      · cases h
+      · rename_i hlen
+        cases hc : encTupleSpec ts fs with
+        | error e => rw [hc] at h; cases h
+        | ok cells =>
+          rw [hc] at h
+          have := frame_false _ _ h
+          subst this
+          rw [specBody_tuple ts v fs hv, if_pos (by omega)]
+          exact soundTuple ts (by simpa [wfTy] using hty) fs body hc
+    | seq vs => rw [hv] at h; cases h
+    | map kvs => rw [hv] at h; cases h
+    | udt ks name m => rw [hv] at h; cases h
+  | .udt dks dname fields => by
+    intro hty v body h hlt
+    rw [encSpec] at h
+    cases hv : viewOf v with
+    | null => rw [hv] at h; simp at h
+    | unset => rw [hv] at h; simp at h
+    | empty =>
+      have : v = .empty := by cases v <;> simp [viewOf] at hv; rfl
+      subst this
+      rw [hv] at h
+      simp only [frameChecked] at h
+      split at h
+      · split at h
+        · cases h
+        · simp at h; subst h; exact specBody_empty _
+      · cases h
+    | scalar acc b viaB => rw [hv] at h; simp [encScalarSpec] at h
+    | udt ks name m =>
+      rw [hv] at h
+      simp only at h
+      simp only [wfTy, Bool.and_eq_true, decide_eq_true_eq] at hty
+      split at h
+      · cases h
+      · cases hc : encUdtSpec fields m with
+        | error e => rw [hc] at h; cases h
+        | ok r =>
+          obtain ⟨cells, l⟩ := r
+          rw [hc] at h
+          simp only at h
+          split at h
+          · cases h
+          · have := frame_false _ _ h
+            subst this
+            rw [specBody_udt dks dname fields v ks name m hv]
+            exact soundUdt fields hty.2 hty.1 m m body l (fun _ _ => rfl) hc
+    | seq vs => rw [hv] at h; cases h
+    | map kvs => rw [hv] at h; cases h
+    | tuple fs => rw [hv] at h; cases h
 theorem soundTuple : ∀ ts : List CqlTy, SoundTuple ts
   | [] => by intro _ fs cells h; cases fs <;> simp [encTupleSpec] at h <;> subst h <;> simp [specTuple]
-  | t :: ts => by sorry
+  | t :: ts => by
+    intro hty fs cells h
+    simp only [wfTys, Bool.and_eq_true] at hty
+    cases fs with
+    | nil => simp [encTupleSpec] at h; subst h; simp [specTuple]
+    | cons f fs =>
+      rw [encTupleSpec] at h
+      cases hc : encSpec t f true with
+      | error e => rw [hc] at h; cases h
+      | ok c =>
+        rw [hc] at h
+        simp only at h
+        cases hr : encTupleSpec ts fs with
+        | error e => rw [hr] at h; cases h
+        | ok r =>
+          rw [hr] at h
+          cases h
+          simp only [specTuple, cell_of_body t (sound t hty.1) f c hc, soundTuple ts hty.2 fs r hr]
 theorem soundUdt : ∀ fields : List (String × CqlTy), SoundUdt fields
   | [] => by intro _ _ m m' cells l _ h; simp [encUdtSpec] at h; simp [specUdt, h.1]
-  | (n, t) :: rest => by sorry
+  | (n, t) :: rest => by
+    intro hty hnd m m' cells l hag h
+    simp only [wfFields, Bool.and_eq_true] at hty
+    simp only [List.map_cons, List.nodup_cons] at hnd
+    have hn := hag (n, t) List.mem_cons_self
+    simp only at hn
+    rw [encUdtSpec, hn] at h
+    have hagr : ∀ f, f ∈ rest → lookupLast f.1 m' = lookupLast f.1 m :=
+      fun f hf => hag f (List.mem_cons_of_mem _ hf)
+    cases hl : lookupLast n m with
+    | none =>
+      rw [hl] at h
+      simp only at h
+      cases hr : encUdtSpec rest m' with
+      | error e => rw [hr] at h; cases h
+      | ok rr =>
+        obtain ⟨r, l'⟩ := rr
+        rw [hr] at h
+        cases h
+        have hf : fieldOf n m = .null := by rw [fieldOf_eq]; simp [lookupOrNull, hl]
+        simp only [specUdt, hf, soundUdt rest hty.2 hnd.2 m m' r _ hagr hr]
+        simp [specCell, nullBytes]
+    | some v =>
+      rw [hl] at h
+      simp only at h
+      cases hc : encSpec t v true with
+      | error e => rw [hc] at h; cases h
+      | ok c =>
+        rw [hc] at h
+        simp only at h
+        cases hr : encUdtSpec rest (removeName n m') with
+        | error e => rw [hr] at h; cases h
+        | ok rr =>
+          obtain ⟨r, l'⟩ := rr
+          rw [hr] at h
+          cases h
+          have hag' : ∀ f, f ∈ rest → lookupLast f.1 (removeName n m') = lookupLast f.1 m := by
+            intro f hf
+            have hne : f.1 ≠ n := by
+              intro e
+              apply hnd.1
+              rw [← e]
+              exact List.mem_map_of_mem hf
+            rw [lookupLast_removeName n f.1 m' hne]
+            exact hagr f hf
+          have hf : fieldOf n m = v := by rw [fieldOf_eq]; simp [lookupOrNull, hl]
+          simp only [specUdt, hf, cell_of_body t (sound t hty.1) v c hc,
+            soundUdt rest hty.2 hnd.2 m (removeName n m') r _ hag' hr]
 end
 
 end ScyllaVerif.Proofs.CodecSpec
